@@ -1,6 +1,7 @@
 import GopatchModel.Intervals
 import GopatchModel.Spec.AstDiffSame
 import GopatchModel.Spec.AlignKeeps
+import GopatchModel.Spec.AlignIds
 namespace Gopatch.C17
 open Gopatch
 
@@ -169,6 +170,11 @@ comments (`AD.Same`), `Snapshot.Diff` reports no region at all — for trees of 
 theorem unchanged_syntax_reports_nothing (old new : AD.AV) (h : AD.Same old new) : (AD.diff old new).ch = [] :=
   AD.walk_same old _ new h
 
+/-- in particular a tree compared with itself: every value agrees with itself (`AD.same_refl`), so the hypothesis above is
+satisfiable for every tree -/
+theorem same_tree_reports_nothing (v : AD.AV) : (AD.diff v v).ch = [] :=
+  AD.walk_same v _ v (AD.same_refl v)
+
 /-- and `compareNodes` finds such trees equal, so an untouched element of a list can be paired as identical -/
 theorem unchanged_syntax_compares_equal (old new : AD.AV) (h : AD.Same old new) : (AD.cmp old new).equal = true := by
   simp [AD.Res.equal, AD.cmp_same old new h]
@@ -233,6 +239,18 @@ theorem untouched_elements_paired_with_partners (old new : List AD.AV) (σ : Nat
     exact htwins i k old[i] new[k] (by simp [hi]) (by simp [hk]) hs
   · exact hmono
   · exact hrun
+
+/-- **Paired as identical only if compared equal.** The converse direction: whatever the two lists look like, `alignSlices`
+gives element `i` of the old list the fate "identical to element `j` of the new list" only when `compareNodes` found the two
+equal (`diff.Difference` puts identities on equal cells only — `AD.difference_ids` — and the anchoring looks for equal
+cells). So a declaration that was rewritten is never treated as untouched, and the comments carried over to the next
+snapshot always belong to syntax that compared equal. -/
+theorem paired_identical_only_if_compared_equal (old new : List AD.AV) (i j : Nat) (f t : AD.AV)
+    (hf : old[i]? = some f) (ht : new[j]? = some t)
+    (h : (AD.fates (AD.alignSlices (AD.cmpRows old new) old.length new.length).1 0)[i]? = some (.same j)) :
+    (AD.cmp f t).equal = true := by
+  have := AD.alignSlices_same_equal (AD.cmpRows old new) old.length new.length i j h
+  rwa [AD.lookup_cmpRows old new i j f t hf ht] at this
 
 /-- a region that keeps clear of a stretch in this sense is `strongClear` of it: the hypothesis of `changelog_keeps_clear` -/
 theorem clear_region_strong (lo hi : Nat) (r : AD.Rg) (h : r.stop ≤ lo ∨ hi ≤ r.pos) :
